@@ -38,7 +38,7 @@ func init() {
 		"add": 6, "remove": 5, "addmany": 10, "addrange": 8, "removerange": 6, "flip": 5, "clear": 1,
 		"runopt": 4, "clone": 4, "detach": 1, "setcow": 3,
 		"binop": 6, "ibinop": 6, "card": 2, "flipstatic": 2, "addoffset": 2, "agg": 3, "andany": 1, "gc": 1,
-		"thresh": 4, "pair": 3, "cowclone": 2, "parlist": 0, "erode": 1, "zcpair": 0,
+		"thresh": 4, "pair": 3, "cowclone": 2, "parlist": 0, "erode": 1, "zcpair": 0, "wide": 1,
 	}
 	with := func(over map[string]int) *profile {
 		m := map[string]int{}
@@ -86,9 +86,9 @@ func init() {
 		"bsicmp64": 22, "bsicmpbsi64": 6, "bsibatch64": 12, "bsiminmax64": 7, "bsisum64": 5, "bsitrans64": 8,
 		"bsicmp32": 18, "bsibatch32": 9, "bsiminmax32": 7, "bsisum32": 4, "bsitrans32": 7, "bsiscan32": 1})
 	profiles["C04"] = with(map[string]int{"cur-open": 14, "cur-step": 45, "iterfn": 14, "runopt": 6, "binop": 2, "ibinop": 2, "agg": 0, "andany": 0, "flipstatic": 0, "addoffset": 0})
-	profiles["C05"] = with(map[string]int{"rt": 30, "wfault": 8, "runopt": 8, "agg": 1, "unmap": 2})
+	profiles["C05"] = with(map[string]int{"wide": 3, "rt": 30, "wfault": 8, "runopt": 8, "agg": 1, "unmap": 2})
 	profiles["C10"] = with(map[string]int{"trunc": 10, "corrupt": 45, "rfault": 4, "mustread": 5, "rt": 3, "runopt": 8, "unmap": 1})
-	profiles["C13"] = with(map[string]int{"freeze": 30, "runopt": 8, "unmap": 3, "gc": 6})
+	profiles["C13"] = with(map[string]int{"wide": 4, "freeze": 30, "runopt": 8, "unmap": 3, "gc": 6})
 	profiles["C08"] = with(map[string]int{"rt": 14, "freeze": 10, "unmap": 8, "detach": 6, "gc": 5, "dense": 3, "clone": 8, "binop": 10, "ibinop": 10, "agg": 5, "setcow": 1,
 		"zcpair": 8, "pair": 2, "thresh": 2,
 		"rt64": 4, "addmany64": 3, "add64": 3, "remove64": 2, "addrange64": 2, "removerange64": 2, "flip64": 1, "binop64": 4, "maint64": 2})
